@@ -188,6 +188,12 @@ def elem_to_model(e):
     raise Unsupported(f"element type {t}")
 
 
+def loop_keys(e):
+    """[`_next_on_break`, `_next_on_continue`] exactly as found in the element dict (None = key absent): the keys the
+    compiler's annotation pass leaves on EVERY element of a loop body (model: V1Annot.AElem.brk / .cnt)"""
+    return [_int(e[k]) if k in e else None for k in ("_next_on_break", "_next_on_continue")]
+
+
 DEFAULT_TRIGGERS = ["UserIntent", "BotIntent", "run_action", "InternalSystemActionFinished"]
 
 
